@@ -430,7 +430,7 @@ func (parser *Parser) ParseExpression(depth int) (res Sexp, err error) {
 		if err != nil {
 			return SexpNull, err
 		}
-		return MakeList([]Sexp{env.MakeSymbol("unquote-splicing"), expr}), nil
+		return MakeList([]Sexp{env.MakeSymbol("unquoteSplicing"), expr}), nil
 	case TokenFreshAssign:
 		return env.MakeSymbol(tok.str), nil
 	case TokenColonOperator:
